@@ -27,7 +27,8 @@ import (
 // ---------- expression corpus
 
 func c03E0() []zn.Expr {
-	return []zn.Expr{zn.Var{Name: "A"}, zn.Num{Lit: "1"}, zn.Str{Val: "s"}}
+	// (the fourth leaf is a text with a real line break inside: the statement goes on after it)
+	return []zn.Expr{zn.Var{Name: "A"}, zn.Num{Lit: "1"}, zn.Str{Val: "s"}, zn.Str{Val: "u\nv"}}
 }
 
 // expression forms as constructors over child slots
@@ -67,6 +68,12 @@ func c03Forms() []c03Form {
 			return zn.MCall{Root: ch[0], Chain: []zn.Call{{Name: "m"}, {Name: "n", Args: []zn.Expr{ch[1]}}}}
 		}},
 		c03Form{"mcally", 1, func(ch []zn.Expr) zn.Expr { return zn.MCall{Root: ch[0], Chain: []zn.Call{{Name: "m"}}, Yield: "R"} }},
+		c03Form{"mchainy", 2, func(ch []zn.Expr) zn.Expr {
+			return zn.MCall{Root: ch[0], Chain: []zn.Call{{Name: "m"}, {Name: "n", Args: []zn.Expr{ch[1]}}}, Yield: "R"}
+		}},
+		c03Form{"mchainy3", 1, func(ch []zn.Expr) zn.Expr {
+			return zn.MCall{Root: ch[0], Chain: []zn.Call{{Name: "m"}, {Name: "n"}, {Name: "o", Args: []zn.Expr{zn.Num{Lit: "2"}}}}, Yield: "R"}
+		}},
 		c03Form{"idxnum", 1, func(ch []zn.Expr) zn.Expr { return zn.Index{Root: ch[0], Idx: zn.Num{Lit: "1"}} }},
 		c03Form{"idxvar", 1, func(ch []zn.Expr) zn.Expr { return zn.Index{Root: ch[0], Idx: zn.Var{Name: "K"}} }},
 		c03Form{"idxstr", 1, func(ch []zn.Expr) zn.Expr { return zn.Index{Root: ch[0], Idx: zn.Str{Val: "k"}} }},
